@@ -110,7 +110,10 @@ def cases(tier, seed):
     # deterministic sequences whose closed forms carry no special cases: the law is a point mass that crosses the thresholds
     for text, monos in (("c = 1\nx = 1\nwhile true:\n    x = x + c\nend\n", ["x", "x*c"]),
                         ("x = 1\ny = 2\nwhile true:\n    y = y + x\nend\n", ["y", "x*y"]),
-                        ("x = 1\nwhile true:\n    x = 2*x\nend\n", ["x"])):
+                        ("x = 1\nwhile true:\n    x = 2*x\nend\n", ["x"]),
+                        # monomials of degree >= 2 with initial values well above the thresholds
+                        ("x = 3\nwhile true:\n    x = x + 1 {1/2} x + 2\nend\n", ["x", "x**2"]),
+                        ("x = 2\ny = 3\nwhile true:\n    x = x + 1\n    y = y + x {1/2} y\nend\n", ["x*y", "y**2"])):
         out.append({"input": {"kind": "program", "text": text, "monomials": monos}, "N": 4, "kmax": kmax})
     for kv in GC_GRID:
         for k in (3, 4, 5):
@@ -255,7 +258,7 @@ def run_program(case):
                 kk = "cumulant:" + exc_name(e)
                 stats["refusals"][kk] = stats["refusals"].get(kk, 0) + 1
         # tail bounds through the printed --at_n lines
-        plan = {a: list(range(N + 1) if THOROUGH else (1, 3)) for a in ("1/2", "1", "3")}
+        plan = {a: list(range(N + 1) if THOROUGH else (0, 1, 3)) for a in ("1/2", "1", "3")}
         # thresholds that coincide with a point mass of the law (degenerate second moment of M - a): the first two per monomial
         extra = 0
         for n in range(N + 1):
@@ -311,7 +314,8 @@ def run_program(case):
                         if lb.is_number and lb.is_real and sympy.Rational(p_gt.numerator, p_gt.denominator) < lb:
                             # the law is a point mass exactly at the threshold: E((M - a)**2) = 0 and the quotient of the
                             # Paley-Zygmund bound is 0/0 (recorded call-site finding); every other case keeps its own label
-                            point = len(law) == 1 and af in law
+                            # (the cancelled quotient is a limit of quotients <= 1, so a reported bound above 1 is something else)
+                            point = len(law) == 1 and af in law and lb <= 1
                             res["violations"].append({"sub": "lower-bound-point-mass-at-threshold" if point else "P(%s > %s) lower" % (mono, a),
                                                       "detail": {"n": n, "true_tail": str(p_gt), "reported_bound": str(lb), "program": text}})
                     except Exception:
